@@ -1,3 +1,4 @@
+#![allow(dead_code)] // datasheet constants are kept complete even where no property reads them yet
 use verif_core::*;
 
 mod drive;
